@@ -3,5 +3,3 @@ package main
 func thoroughExtras(id string, p *Prog, r *Report) {}
 
 func runSelfTest(args []string) int { return 0 }
-
-type ssaProg struct{}
